@@ -20,6 +20,7 @@ type Finding struct {
 	Kind  string
 	Match *regexp.Regexp
 	Tag   string
+	TagRe *regexp.Regexp
 	Desc  string
 }
 
@@ -73,6 +74,12 @@ func LoadFindings(verif string) ([]Finding, error) {
 				fd.Kind = p[1]
 			case "tag":
 				fd.Tag = p[1]
+			case "tagre":
+				re, err := regexp.Compile("^(" + p[1] + ")$")
+				if err != nil {
+					return nil, fmt.Errorf("known-findings: bad tagre %q: %v", p[1], err)
+				}
+				fd.TagRe = re
 			}
 		}
 		out = append(out, fd)
@@ -178,6 +185,17 @@ func (r *Report) match(v *Viol) *Finding {
 				continue
 			}
 		}
+		if f.TagRe != nil {
+			ok := false
+			for _, t := range v.Tags {
+				if f.TagRe.MatchString(t) {
+					ok = true
+				}
+			}
+			if !ok {
+				continue
+			}
+		}
 		if f.Match != nil && !f.Match.MatchString(v.Summary+"\n"+v.Detail) {
 			continue
 		}
@@ -214,6 +232,11 @@ func (r *Report) Finish() int {
 		uniq = append(uniq, v)
 	}
 	replayRoot := filepath.Join(r.Env.Verif, "replays", r.Prop)
+	if len(uniq) > 0 {
+		// keep replay sources out of the driver module
+		os.MkdirAll(filepath.Join(r.Env.Verif, "replays"), 0o755)
+		os.WriteFile(filepath.Join(r.Env.Verif, "replays", "go.mod"), []byte("module replays\n\ngo 1.22\n"), 0o644)
+	}
 	for i, v := range uniq {
 		if i >= 10 {
 			break
@@ -234,6 +257,14 @@ func (r *Report) Finish() int {
 		meta := map[string]any{"property": r.Prop, "kind": v.Kind, "case": v.Case, "summary": v.Summary, "detail": v.Detail, "tags": v.Tags, "seed": r.Env.Seed, "tier": r.Env.Tier, "meta": v.Meta}
 		b, _ := json.MarshalIndent(meta, "", " ")
 		os.WriteFile(filepath.Join(dir, "violation.json"), b, 0o644)
+	}
+	if len(uniq) > 0 {
+		var sb strings.Builder
+		for _, v := range uniq {
+			fmt.Fprintf(&sb, "%s\t%s\t%s\t%s\n", v.Kind, v.Case, strings.Join(v.Tags, ","), oneLine(v.Summary, 400))
+		}
+		os.MkdirAll(replayRoot, 0o755)
+		os.WriteFile(filepath.Join(replayRoot, "all-violations.txt"), []byte(sb.String()), 0o644)
 	}
 	cov := map[string]any{
 		"evaluations":         r.Evaluations,
